@@ -622,12 +622,21 @@ func JSON[T any](raw json.RawMessage) (T, error) {
 
 // Catch runs an oracle and turns a panic of the code under test into a
 // failure with signature "panic".
+// Hang is what a harness helper panics with when the code under test did not
+// return within its (generous) deadline; Catch turns it into a failure of its
+// own kind.
+type Hang struct{ Msg string }
+
 func Catch(f func() *Failure) (res *Failure) {
 	defer func() {
 		if r := recover(); r != nil {
 			tn := fmt.Sprintf("%T", r)
 			if strings.HasPrefix(tn, "rapid.") {
 				panic(r)
+			}
+			if h, ok := r.(Hang); ok {
+				res = Failf("does-not-return", "%s", h.Msg)
+				return
 			}
 			st := string(debug.Stack())
 			if len(st) > 3000 {
